@@ -95,6 +95,14 @@ ReviveSub(p) ==
   /\ Op([op |-> "revive", p |-> p, o |-> 1, b |-> "-", target |-> "-", sender |-> "-", id |-> 0])
   /\ UNCHANGED <<subs, got, want, asub, nev, nmsg, gen>>
 
+(* ... or the id is spawned again and the new actor does not subscribe: after an Unsubscribe for the PID (or if it never
+   was subscribed) nothing is owed to it, whoever runs under the id *)
+Revive(p) ==
+  /\ CanOp /\ AllowRevive /\ ~alive[p] /\ p \notin asub
+  /\ alive' = [alive EXCEPT ![p] = TRUE]
+  /\ Op([op |-> "revive0", p |-> p, o |-> 0, b |-> "-", target |-> "-", sender |-> "-", id |-> 0])
+  /\ UNCHANGED <<inbox, subs, got, want, asub, nev, nmsg, gen>>
+
 (* Engine.Send / SendWithSender to something that cannot be delivered.  Sender "req": the message goes out through
    Engine.Request (the sender is the request's response PID).  Payload "nil": the message value is the untyped nil
    (it carries no id: 0) *)
@@ -145,6 +153,7 @@ Next == \/ \E p \in Subs, o \in Objs : Subscribe(p, o) \/ Unsubscribe(p, o)
         \/ \E p \in Subs : StopSub(p)
         \/ \E p \in Subs : StopRespawn(p)
         \/ \E p \in Subs : ReviveSub(p)
+        \/ \E p \in Subs : Revive(p)
         \/ \E t \in SendTargets, s \in SendSenders, pl \in SendPayloads : SendUndeliverable(t, s, pl)
         \/ Process
 
